@@ -1,8 +1,9 @@
 use swc_core::{
-    common::DUMMY_SP,
+    common::{Span, DUMMY_SP},
     ecma::{
         ast::*,
         utils::{private_ident, quote_ident, quote_str},
+        visit::{Visit, VisitWith},
     },
 };
 
@@ -222,6 +223,26 @@ pub(crate) fn dedupe_props(props: Vec<PropOrSpread>) -> Vec<PropOrSpread> {
 /// `"use strict";` and the like: an expression statement that is just a string literal
 pub(crate) fn is_directive_stmt(stmt: &Stmt) -> bool {
     matches!(stmt, Stmt::Expr(ExprStmt { expr, .. }) if matches!(&**expr, Expr::Lit(Lit::Str(..))))
+}
+
+/// The first `await` / `yield` that belongs to the function the expression is written in
+/// (nested functions and classes have their own).
+pub(crate) fn find_await_or_yield(expr: &Expr) -> Option<Span> {
+    struct Finder(Option<Span>);
+    impl Visit for Finder {
+        fn visit_await_expr(&mut self, n: &AwaitExpr) {
+            self.0.get_or_insert(n.span);
+        }
+        fn visit_yield_expr(&mut self, n: &YieldExpr) {
+            self.0.get_or_insert(n.span);
+        }
+        fn visit_function(&mut self, _: &Function) {}
+        fn visit_arrow_expr(&mut self, _: &ArrowExpr) {}
+        fn visit_class(&mut self, _: &Class) {}
+    }
+    let mut finder = Finder(None);
+    expr.visit_with(&mut finder);
+    finder.0
 }
 
 pub(crate) fn decouple_v_models(
